@@ -251,8 +251,9 @@ func C09(c *ev.Ctx) {
 	}, func(int) {})
 	// malformed compact strings and JWKs
 	var mal struct {
-		Compact []string `json:"compact"`
-		JWK     []string `json:"jwk"`
+		Compact  []string `json:"compact"`
+		JWK      []string `json:"jwk"`
+		Payloads []string `json:"payloads"`
 	}
 	if len(r.Tagged["MALFORMED"]) == 0 || json.Unmarshal(r.Tagged["MALFORMED"][0], &mal) != nil {
 		ev.Fatal("no malformed classes emitted")
@@ -287,12 +288,27 @@ func C09(c *ev.Ctx) {
 			}
 		}
 		nt += int64(len(mal.Compact) + len(mal.JWK))
+		// the library's own signing utility: whatever it agrees to sign verifies under the matching key
+		for _, pc := range mal.Payloads {
+			payload := map[string][]byte{"empty": {}, "oneByte": {'x'}, "json": []byte(`{"a":[1,2,3]}`), "binary": {0, 255, 10, 13, 46, 0}}[pc]
+			signed, serr := jwsx.SignPayload(payload, k.signer.signer)
+			calls++
+			if serr != nil {
+				if pc != "empty" {
+					c.Violation("jws:signing-utility-refuses-payload:"+pc+":"+kt.String(), map[string]interface{}{"payload": payload, "error": serr.Error()})
+				}
+				continue
+			}
+			if res, msg := verifyJWS(signed, k.signer.jwk); res != "accept" {
+				c.Violation("jws:signed-by-the-library-but-not-verifiable:"+pc+"-payload", map[string]interface{}{"jws": signed, "key_type": kt.String(), "observed": res, "message": msg})
+			}
+		}
 	}
 	c.Cov.TracesValidatedAgainstImpl = calls
 	c.Cov.Evaluations = calls
 	c.Cov.DistinctNontrivial = nt
 	c.Cov.Exhaustive = true
-	c.Cov.Rule = "5 key types x 10 signature forms (genuine, ECDSA twin, flipped byte, truncated, extended, halves resized by zero padding, empty, all-zero, signature by another key of the same / another type) x header tamper (none, alg changed / any value-changing byte flip, member added, whitespace only) x payload tamper (none, byte changed, byte appended) x verification key (signer, other of same type, other type); positional classes are expanded over byte positions (quick: every 5th, thorough: all); each resulting compact JWS goes through the real VerifyJWS (tag-verif re-export) under panic capture; plus malformed compact strings (15 classes) and JWKs (12 classes) per key type. Non-trivial: every case not expected to be accepted."
+	c.Cov.Rule = "5 key types x 10 signature forms (genuine, ECDSA twin, flipped byte, truncated, extended, halves resized by zero padding, empty, all-zero, signature by another key of the same / another type) x header tamper (none, alg changed / any value-changing byte flip, member added, whitespace only) x payload tamper (none, byte changed, byte appended) x verification key (signer, other of same type, other type); positional classes are expanded over byte positions (quick: every 5th, thorough: all); each resulting compact JWS goes through the real VerifyJWS (tag-verif re-export) under panic capture; plus what the library's signing utility returns for empty / one-byte / JSON / binary payloads, malformed compact strings (18 classes, incl. alg members that are no strings, line breaks and stray bits in base64url segments) and JWKs (12 classes) per key type. Non-trivial: every case not expected to be accepted."
 	c.Assume = append(c.Assume, "cryptographic primitives (crypto/ecdsa, ed25519, btcec) are trusted; the ECDSA twin (r, n-s) may be accepted or rejected")
 	c.Finish("model_checking")
 }
@@ -360,6 +376,32 @@ func malformedCompact0(cls string, parts []string, kt concr.KeyType) []string {
 			out = append(out, hdr(fmt.Sprintf(`{"alg":%q,"b64":%s}`, kt.Alg(), v))+"."+p+"."+s)
 		}
 		return out
+	case "headerAlgNotAString":
+		var out []string
+		for _, v := range []string{`null`, `""`, `0`, `false`, `[]`, `{}`, `["` + kt.Alg() + `"]`} {
+			out = append(out, hdr(`{"alg":`+v+`}`)+"."+p+"."+s, hdr(`{"alg":`+v+`,"kid":"key-1"}`)+"."+p+"."+s)
+		}
+		return out
+	case "lineBreakInSegment":
+		mid := func(x string) string { return x[:len(x)/2] + "\n" + x[len(x)/2:] }
+		return []string{h + "." + p + "." + mid(s), h + "." + mid(p) + "." + s, mid(h) + "." + p + "." + s, h + "\n." + p + "." + s, h + "." + p + "\r\n." + s,
+			h + "." + p + "." + s + "\n", h + "." + p + "." + s + "\r\n", "\n" + h + "." + p + "." + s, h + "." + p[:4] + "\r\n" + p[4:] + "." + s}
+	case "strayBitsInSegment":
+		// the last character of a segment carries 2 or 4 bits that belong to no byte; set, they change nothing that is decoded
+		var out []string
+		for i, seg := range []string{h, p, s} {
+			if v := strayBits(seg); v != seg && i > 0 {
+				x := []string{h, p, s}
+				x[i] = v
+				out = append(out, strings.Join(x, "."))
+			}
+		}
+		return out
+	case "strayBitsInHeaderSegment":
+		if v := strayBits(h); v != h {
+			return []string{v + "." + p + "." + s}
+		}
+		return nil
 	case "emptyPayload":
 		return []string{h + ".." + s}
 	case "emptySignature":
@@ -372,6 +414,23 @@ func malformedCompact0(cls string, parts []string, kt concr.KeyType) []string {
 		return []string{"..", ".", "..."}
 	}
 	return nil
+}
+
+// strayBits sets the unused low bits of the last base64url character (returns s itself when there are none).
+func strayBits(s string) string {
+	const abc = "ABCDEFGHIJKLMNOPQRSTUVWXYZabcdefghijklmnopqrstuvwxyz0123456789-_"
+	if len(s) == 0 || len(s)%4 == 0 || len(s)%4 == 1 {
+		return s
+	}
+	i := strings.IndexByte(abc, s[len(s)-1])
+	if i < 0 {
+		return s
+	}
+	mask := 0x0f // len%4 == 2: 4 unused bits
+	if len(s)%4 == 3 {
+		mask = 0x03
+	}
+	return s[:len(s)-1] + string(abc[i|mask])
 }
 
 func malformedJWK(cls string, good *jws.JWK, kt concr.KeyType) []*jws.JWK {
